@@ -381,4 +381,108 @@ theorem decode_encodeQMsg {m : QMsg} (h : m.WF) : decodeQMsg (encodeQMsg m) = .o
   rw [if_neg (by simp [maxIdentifier]; omega), e10]
   simp only [maxJustifications, maxJustificationSize, d6, u6, e11, d7, u7]
 
+/-! ### the outer `qbft.SignedMessage` -/
+
+structure SignedMsg.WF (m : SignedMsg) : Prop where
+  sig : m.signature.length = 96
+  count : m.signers.length ≤ maxSigners
+  each : ∀ s ∈ m.signers, s < 2 ^ 64
+  message : m.message.WF
+  fullData : m.fullData.length ≤ maxFullData
+
+theorem u64s_length (l : List Nat) : (l.map (leBytes 8)).flatten.length = 8 * l.length := by
+  induction l with
+  | nil => rfl
+  | cons x r ih => simp [ih]; omega
+
+theorem readU64s_enc (l : List Nat) : ∀ (pre : List Nat), (∀ x ∈ l, x < 2 ^ 64) →
+    ∀ (tail : List Nat), readU64s ((pre.map (leBytes 8)).flatten ++ ((l.map (leBytes 8)).flatten ++ tail)) pre.length l.length = .ok l := by
+  induction l with
+  | nil => intro _ _ _; simp [readU64s]
+  | cons x r ih =>
+    intro pre hl tail
+    have hx := hl x (by simp)
+    simp only [List.length_cons, readU64s, bind_eq, List.map_cons, List.flatten_cons, List.append_assoc]
+    rw [slice_mid _ (leBytes 8 x) _ _ _ (by have := u64s_length pre; omega) (by have := u64s_length pre; simp only [leBytes_length]; omega)]
+    have := ih (pre ++ [x]) (fun y hy => hl y (by simp [hy])) tail
+    simp only [List.map_append, List.flatten_append, List.map_cons, List.map_nil, List.flatten_cons, List.flatten_nil,
+      List.append_nil, List.length_append, List.length_cons, List.length_nil, List.append_assoc] at this
+    simp only [Res.bind, readU64_leBytes _ hx, this]
+
+theorem encodeQMsg_length (m : QMsg) (hroot : m.root.length = 32) :
+    (encodeQMsg m).length = 76 + m.identifier.length + (encodeDyn m.rcj).length + (encodeDyn m.pj).length := by
+  simp only [encodeQMsg, List.length_append, leBytes_length, hroot] <;> omega
+
+theorem decode_encodeSigned {m : SignedMsg} (h : m.WF) : decodeSigned (encodeSigned m) = .ok m := by
+  obtain ⟨hsig, hcount, heach, hmsg, hfd⟩ := h
+  have hq := decode_encodeQMsg hmsg
+  have hb := hmsg.bounded
+  have hqlen := encodeQMsg_length m.message hb.root
+  have hf6 := flatten_le m.message.rcj 65536 hb.rcjSize
+  have hf7 := flatten_le m.message.pj 65536 hb.pjSize
+  have h1 := hb.identifier; have h2 := hb.rcjCount; have h3 := hb.pjCount
+  simp only [maxIdentifier, maxJustifications, maxSigners, maxFullData, encodeDyn_length] at *
+  have hS := u64s_length m.signers
+  have hrd := readU64s_enc m.signers [] heach (encodeQMsg m.message ++ m.fullData)
+  simp only [List.map_nil, List.flatten_nil, List.nil_append, List.length_nil] at hrd
+  unfold decodeSigned encodeSigned
+  generalize encodeQMsg m.message = Q at *
+  generalize hSdef : (m.signers.map (leBytes 8)).flatten = S at *
+  obtain ⟨sg, signers, msg, fd⟩ := m
+  simp only at *
+  have hlen : (sg ++ leBytes 4 signedFixed ++ leBytes 4 (signedFixed + 8 * signers.length) ++
+      leBytes 4 (signedFixed + 8 * signers.length + Q.length) ++ S ++ Q ++ fd).length = 108 + S.length + Q.length + fd.length := by
+    simp [hsig, signedFixed]; omega
+  simp only [hlen, bind_eq]
+  rw [if_neg (by simp [signedFixed]; omega)]
+  generalize hbuf : (sg ++ leBytes 4 signedFixed ++ leBytes 4 (signedFixed + 8 * signers.length) ++
+      leBytes 4 (signedFixed + 8 * signers.length + Q.length) ++ S ++ Q ++ fd) = buf
+  have e1 : slice buf 0 96 = .ok sg := by
+    have := slice_mid [] sg (leBytes 4 signedFixed ++ leBytes 4 (signedFixed + 8 * signers.length) ++
+      leBytes 4 (signedFixed + 8 * signers.length + Q.length) ++ S ++ Q ++ fd) 0 96 rfl (by simp [hsig])
+    rw [← hbuf]; simpa [List.append_assoc] using this
+  have e2 : slice buf 96 100 = .ok (leBytes 4 signedFixed) := by
+    have := slice_mid sg (leBytes 4 signedFixed) (leBytes 4 (signedFixed + 8 * signers.length) ++
+      leBytes 4 (signedFixed + 8 * signers.length + Q.length) ++ S ++ Q ++ fd) 96 100 (by simp [hsig]) (by simp [hsig])
+    rw [← hbuf]; simpa [List.append_assoc] using this
+  have e3 : slice buf 100 104 = .ok (leBytes 4 (signedFixed + 8 * signers.length)) := by
+    have := slice_mid (sg ++ leBytes 4 signedFixed) (leBytes 4 (signedFixed + 8 * signers.length))
+      (leBytes 4 (signedFixed + 8 * signers.length + Q.length) ++ S ++ Q ++ fd) 100 104 (by simp [hsig]) (by simp [hsig])
+    rw [← hbuf]; simpa [List.append_assoc] using this
+  have e4 : slice buf 104 108 = .ok (leBytes 4 (signedFixed + 8 * signers.length + Q.length)) := by
+    have := slice_mid (sg ++ leBytes 4 signedFixed ++ leBytes 4 (signedFixed + 8 * signers.length))
+      (leBytes 4 (signedFixed + 8 * signers.length + Q.length)) (S ++ Q ++ fd) 104 108 (by simp [hsig]) (by simp [hsig])
+    rw [← hbuf]; simpa [List.append_assoc] using this
+  have e5 : slice buf signedFixed (signedFixed + 8 * signers.length) = .ok S := by
+    have := slice_mid (sg ++ leBytes 4 signedFixed ++ leBytes 4 (signedFixed + 8 * signers.length) ++
+      leBytes 4 (signedFixed + 8 * signers.length + Q.length)) S (Q ++ fd) signedFixed (signedFixed + 8 * signers.length)
+      (by simp [hsig, signedFixed] <;> omega) (by simp [hsig, signedFixed, hS] <;> omega)
+    rw [← hbuf]; simpa [List.append_assoc] using this
+  have e6 : slice buf (signedFixed + 8 * signers.length) (signedFixed + 8 * signers.length + Q.length) = .ok Q := by
+    have := slice_mid (sg ++ leBytes 4 signedFixed ++ leBytes 4 (signedFixed + 8 * signers.length) ++
+      leBytes 4 (signedFixed + 8 * signers.length + Q.length) ++ S) Q fd (signedFixed + 8 * signers.length) (signedFixed + 8 * signers.length + Q.length)
+      (by simp [hsig, signedFixed, hS] <;> omega) (by simp [hsig, signedFixed, hS] <;> omega)
+    rw [← hbuf]; simpa [List.append_assoc] using this
+  have e7 : sliceFrom buf (signedFixed + 8 * signers.length + Q.length) = .ok fd := by
+    have := sliceFrom_end (sg ++ leBytes 4 signedFixed ++ leBytes 4 (signedFixed + 8 * signers.length) ++
+      leBytes 4 (signedFixed + 8 * signers.length + Q.length) ++ S ++ Q) fd (signedFixed + 8 * signers.length + Q.length)
+      (by simp [hsig, signedFixed, hS] <;> omega)
+    rw [← hbuf]; simpa [List.append_assoc] using this
+  have h32a : signedFixed + 8 * signers.length < 2 ^ 32 := by simp [signedFixed]; omega
+  have h32b : signedFixed + 8 * signers.length + Q.length < 2 ^ 32 := by simp [signedFixed]; omega
+  have hrd' : readU64s S 0 signers.length = .ok signers := by
+    have := readU64s_enc signers [] heach []
+    simpa [hSdef] using this
+  rw [e1, e2]
+  simp only [Res.bind, readOffset_leBytes signedFixed (by simp [signedFixed])]
+  rw [if_neg (by simp [signedFixed]; omega), if_neg (by simp [signedFixed]), e3]
+  simp only [readOffset_leBytes _ h32a]
+  rw [if_neg (by simp [signedFixed]; omega), e4]
+  simp only [readOffset_leBytes _ h32b]
+  rw [if_neg (by simp [signedFixed]; omega), e5]
+  simp only [hS]
+  rw [if_neg (by omega), Nat.mul_div_cancel_left _ (by omega : 0 < 8), if_neg (by simp [maxSigners]; omega), hrd', e6]
+  simp only [hq, e7]
+  rw [if_neg (by simp [maxFullData]; omega)]
+
 end Ssv.Ssz
